@@ -22,7 +22,7 @@ func init() {
 			"(7) GetNodeInfo's readOnly result is engine.IsReadOnly(), role is config.Mode, and the service copies results field to field. " +
 			"Added after blind round 4: reflective method lookups (which the call graph cannot see) name only the engine's own BeginTransaction, the guarded door.",
 		NotDecided: "that data stays byte-identical (follows from the guard dominating every effect); interleavings of client calls with replication apply; the window between replica.Start() and SetReadOnly(true) (reported as info).",
-		Rules:      []func(*Ctx, *Reporter){ruleC16Mutators, ruleC16Who, ruleC16Tx, ruleC16Applier, ruleC16Start, ruleC16NodeInfo, ruleReflectiveDoors},
+		Rules:      []func(*Ctx, *Reporter){ruleC16Mutators, ruleC16Who, ruleC16Tx, ruleC16Applier, ruleC16Start, ruleC16NodeInfo, ruleReflectiveDoors, ruleReadOnlyOnlyRaised, ruleTxLockWriters},
 	})
 }
 
